@@ -43,7 +43,7 @@ LEVEL_TEXT = ('Every shipped file (yaml/, registered_envs/, examples/coin_env.ya
 LEVEL_NOTE = ('Trusted: compose.py (independent interpreter). Not demanded: exception class for a malformed `area` and for an unknown '
               'custom module (outside the statement); unknown extra parameters are ignored by design.')
 SHARDS = {'quick': 4, 'thorough': 16}
-BUDGET_S = {'quick': 60, 'thorough': 600}
+BUDGET_S = {'quick': 300, 'thorough': 2400}
 RULE = ('case = (file, seed, action sequence) differential trace; or (file, corruption); or (registry, name, parameter set). '
         'non-trivial = corruption cases and traces with at least one reset-on-termination; distinct by (file, corruption id) resp. '
         '(file, seed).')
